@@ -50,7 +50,8 @@ Definition e37_step (s : sess) (e : sevent) : option (sess * list sout) :=
   match e with
   | EvConnected => match st s with NotConnected => Some ({| st := NotSelected; waiting := waiting s; closing := false |}, []) | _ => None end
   | EvClosing => match st s with NotConnected => None | _ => Some ({| st := st s; waiting := waiting s; closing := true |}, []) end
-  | EvClosed => match st s with NotConnected => None | _ => Some ({| st := NotConnected; waiting := waiting s; closing := false |}, [OutCtrl ST_SEPARATE 0]) end
+  (* open transactions end with the connection: nobody answers any more, their requesters go on without a response *)
+  | EvClosed => match st s with NotConnected => None | _ => Some ({| st := NotConnected; waiting := []; closing := false |}, [OutCtrl ST_SEPARATE 0]) end
   | EvOpen stype system => Some ({| st := st s; waiting := (system, stype) :: waiting s; closing := closing s |}, [OutCtrl stype system])
   | EvGiveUp system => Some ({| st := st s; waiting := drop s system; closing := closing s |}, [])
   | EvCtrl stype system status =>
